@@ -564,7 +564,13 @@ fn run_case(cfg: &Config, text: &str, rng: &mut Rng, nvals: usize) -> Outcome {
                 let tgt = if r_new.is_ok() { vm_coq(&new_vm, &mentioned) } else { "RFail".to_string() };
                 run_parts.push(format!("({}%nat, [{}], {}, {})", vm_difficulty, init_coq, vm_coq(&old_vm, &mentioned), tgt));
             }
-            if let Err(p) = r_new { out.oracle_fail.push(format!("compiled code panics in the VM ({}) where the source does not", p)); break; }
+            if let Err(p) = r_new {
+                // AstVm cannot run everything the raiser may print: a jump whose condition carried a difficulty switch comes
+                // back as a raw instruction with offsetof()/timeof() arguments ("not implemented: offsetof/timeof in VM").
+                // That is a limit of the oracle, not a behaviour of the compiled code: the run is inconclusive.
+                if p.contains("not implemented") { continue; }
+                out.oracle_fail.push(format!("compiled code panics in the VM ({}) where the source does not", p)); break;
+            }
             let mut bad = vec![];
             let mut value_diff = false;
             if old_vm.time != new_vm.time { bad.push(format!("time {} vs {}", old_vm.time, new_vm.time)); }
